@@ -8,7 +8,7 @@ A *history spec* is plain data (what replay files contain):
      "head":    name | None}                      # symbolic HEAD target (None: detached at refs[0])
 
     target = ("c", i) | ("tree", i) | ("blob", fam, ver) | ("tag", k)
-    op     = ("base", v) | ("set", p, fam, ver, exe) | ("del", p) | ("cpdir",) | ("link", k) | ("sym", k)
+    op     = ("base", v) | ("set", p, fam, ver, exe) | ("bump", p, k) | ("del", p) | ("cpdir",) | ("link", k) | ("sym", k)
              | ("take", parent_no, p)
 
 Objects are serialised by this module from the git object format (commit / tree /
@@ -129,6 +129,14 @@ class History:
                                 b"d/y": ("f", 2, 0, True), b"d/s/z": ("f", 3, v % NVER, False)})
             elif kind == "set":
                 listing[PATHS[op[1] % len(PATHS)]] = ("f", op[2] % NFAM, op[3] % NVER, bool(op[4]))
+            elif kind == "bump":
+                # next version of whatever file lives at the path (same family: the blobs deltify against each other)
+                p = PATHS[op[1] % len(PATHS)]
+                v = listing.get(p)
+                if v is not None and v[0] == "f":
+                    listing[p] = ("f", v[1], (v[2] + 1 + op[2] % (NVER - 1)) % NVER, v[3])
+                else:
+                    listing[p] = ("f", op[1] % 4, op[2] % NVER, False)
             elif kind == "del":
                 listing.pop(PATHS[op[1] % len(PATHS)], None)
             elif kind == "cpdir":
@@ -338,6 +346,11 @@ def strategies():
 
     def op(nparents):
         alts = [
+            st.tuples(st.just("bump"), st.integers(0, 4), st.integers(0, 2)),
+            st.tuples(st.just("bump"), st.integers(0, 4), st.integers(0, 2)),
+            st.tuples(st.just("bump"), st.sampled_from([0, 2, 4]), st.integers(0, 2)),
+            st.tuples(st.just("bump"), st.sampled_from([0, 2, 4]), st.integers(0, 2)),
+            st.tuples(st.just("bump"), st.integers(0, len(PATHS) - 1), st.integers(0, 2)),
             st.tuples(st.just("set"), st.integers(0, len(PATHS) - 1), st.integers(0, NFAM - 1), st.integers(0, NVER - 1), st.booleans()),
             st.tuples(st.just("set"), st.integers(0, 4), st.integers(0, 3), st.integers(0, NVER - 1), st.just(False)),
             st.tuples(st.just("del"), st.integers(0, len(PATHS) - 1)),
@@ -358,7 +371,7 @@ def strategies():
             if i == 0:
                 parents = []
             else:
-                kind = draw(st.sampled_from("sssssssmmmmro"))
+                kind = draw(st.sampled_from("sssssssmmmmroo"))
                 if kind == "r":
                     parents = []
                 elif kind == "s" or i < 2:
